@@ -10,7 +10,6 @@ pub broadcast proof fn axiom_sign_recover(msg: Seq<u8>, sk: SecretKey)
 { admit(); }
 #[derive(Debug)]
 pub struct Secp256k1Error;
-pub use Secp256k1Error as Error;
 pub mod message_signing {
     use super::*;
     #[verifier::external_body]
